@@ -9,6 +9,8 @@ if [ -f harness/translate.py ]; then
   PYTHONPATH="$PYTEAL_REPO" PYTHONHASHSEED=0 /venv/bin/python harness/translate.py || echo "setup: translator failed (checks will report it)"
 fi
 [ -f harness/c04_translate.py ] && { PYTHONPATH="$PYTEAL_REPO" PYTHONHASHSEED=0 /venv/bin/python harness/c04_translate.py || echo "setup: c04 translator failed (C04 will report it)"; }
+# CallX/*: 13 proof files are textual re-instantiations of Proofs/* against a call oracle; regenerate (idempotent) so they follow their sources
+[ -f harness/tools/callx_gen.py ] && { python3 harness/tools/callx_gen.py coq > /dev/null 2>&1 || echo "setup: callx_gen failed (committed CallX copies are used)"; }
 PYTHONPATH=harness /venv/bin/python - <<'PY'
 import common, sys
 ok, out = common.coq_make(tag='all', keep_going=True)
